@@ -108,4 +108,52 @@ theorem mergeGo_sound (p : Option Extent) (l : List Extent) (hw : WF (pl p ++ l)
             exact Or.inr ⟨x, by simp [List.mem_cons.mp hx |>.elim (fun h => Or.inr (Or.inl h)) (fun h => Or.inr (Or.inr h))],
                           y, by simp [List.mem_cons.mp hy |>.elim (fun h => Or.inr (Or.inl h)) (fun h => Or.inr (Or.inr h))], hxy, hb⟩
 
+
+/-- the overflow-checked variant the driver runs agrees with `mergeGo` whenever it does not panic -/
+theorem mergeGoChk_eq (p : Option Extent) (l : List Extent) (r : List Extent)
+    (h : mergeGoChk p l = some r) : r = mergeGo p l := by
+  induction l generalizing p r with
+  | nil => cases p <;> simp_all [mergeGoChk, mergeGo]
+  | cons e es ih =>
+    cases p with
+    | none => simpa [mergeGo] using ih (some e) r (by simpa [mergeGoChk] using h)
+    | some p =>
+      unfold mergeGoChk at h
+      unfold mergeGo
+      split at h
+      · simp at h
+      · split at h
+        · rename_i heq; simp only [heq, if_true]; exact ih _ r h
+        · rename_i hne; simp only [hne, if_false]
+          cases hq : mergeGoChk (some e) es with
+          | none => simp [hq] at h
+          | some q =>
+            simp [hq] at h
+            rw [← h, ih (some e) q hq]
+
+/-- it panics only if some extent ends at `u64::MAX` -/
+theorem mergeGoChk_some (p : Option Extent) (l : List Extent)
+    (hp : ∀ x ∈ pl p ++ l, x.stop + 1 < 2^64) : (mergeGoChk p l).isSome := by
+  induction l generalizing p with
+  | nil => cases p <;> simp [mergeGoChk]
+  | cons e es ih =>
+    cases p with
+    | none => simpa [mergeGoChk] using ih (some e) (by simpa [pl] using hp)
+    | some p =>
+      unfold mergeGoChk
+      have h1 := hp p (by simp [pl])
+      have h2 := hp e (by simp [pl])
+      have : ¬ (p.stop + 1 ≥ 2^64) := by omega
+      simp only [this, if_false]
+      split
+      · apply ih; intro x hx
+        simp only [pl, List.cons_append, List.nil_append, List.mem_cons] at hx
+        rcases hx with rfl | hx
+        · simpa using h2
+        · exact hp x (by simp [pl, hx])
+      · have := ih (some e) (by intro x hx; exact hp x (by simp [pl] at hx ⊢; rcases hx with rfl | hx <;> simp [*]))
+        cases hq : mergeGoChk (some e) es with
+        | none => simp [hq] at this
+        | some q => simp
+
 end Xcp
